@@ -161,7 +161,8 @@ def handle_quic_packet(packet: Packet, keylog, quic_sessions: list[QuicSession],
     def known_cid(session):
         # the connection ID of this session that the datagram is addressed to, or None
         if header_type == QuicHeaderType.LONG:
-            if dcid in session.client_cids or dcid in session.server_cids:
+            # a zero-length connection ID identifies nothing (see below)
+            if len(dcid) > 0 and (dcid in session.client_cids or dcid in session.server_cids):
                 return dcid
             return None
         # match by checking all known cid lengths for session: longest first, so that the result does not
